@@ -220,6 +220,16 @@ theorem range_ich {e : Emu} {rows cols : Nat} (h : EmuInv e rows cols) (d : Dim 
   (try range_norm)
   range_fin
 
+theorem range_rep {e : Emu} {rows cols : Nat} (h : EmuInv e rows cols) (d : Dim rows cols) {n : Int} (hn : POk n) :
+    rangeBody TermBodies.body_rep [] [n] e = true := by
+  obtain ⟨b1, b2, b3, b4, b5, b6, b7, b8, b9, b10, b11, b12, b13, b14, b15⟩ := good_bounds h d
+  unfold POk at hn
+  simp only [TermBodies.body_rep, TermBodies.stmt_rep]
+  range_norm
+  (try range_norm)
+  (try range_norm)
+  range_fin
+
 theorem range_ind {e : Emu} {rows cols : Nat} (h : EmuInv e rows cols) (d : Dim rows cols) :
     rangeBody TermBodies.body_ind [] [] e = true := by
   obtain ⟨b1, b2, b3, b4, b5, b6, b7, b8, b9, b10, b11, b12, b13, b14, b15⟩ := good_bounds h d
